@@ -240,6 +240,7 @@ func init() {
 	shape.RegisterBase("Backoffs", reflect.TypeOf(Backoffs(nil)))
 	shape.RegisterBase("Deadlines", reflect.TypeOf(Deadlines(nil)))
 	shape.RegisterBase("Windows", reflect.TypeOf(Windows{}))
+	shape.RegisterBase("map[int]struct{}", intSetT)
 	shape.RegisterBase("Peer", reflect.TypeOf(Peer{}))
 	shape.RegisterBase("PeerList", peerListT)
 	shape.RegisterBase("WordList", wordListT)
@@ -266,11 +267,18 @@ var c13StructLists = []string{"[]Backend", "[]Backend", "[]Route", "[]Route", "[
 // structs from an array of strings, whatever dials does.)
 var c13TextStructSlices = []string{"[]time.Time", "[]time.Time"}
 
-func c13Profile(withTextStructSlices bool) shape.Profile {
+// c13IntSets: sets with integer members (agree check only; their values come
+// from SetEdit, never from a seed).
+var c13IntSets = []string{"map[int]struct{}", "map[int]struct{}"}
+
+func c13Profile(withTextStructSlices, withIntSets bool) shape.Profile {
 	leaves := append(append(append([]string{}, c13Leaves...), c13StructLists...), c13TextColls...)
 	leaves = append(leaves, c13DurationContainers...)
 	if withTextStructSlices {
 		leaves = append(leaves, c13TextStructSlices...)
+	}
+	if withIntSets {
+		leaves = append(leaves, c13IntSets...)
 	}
 	return shape.Profile{
 		LeafTypes:  leaves,
@@ -470,6 +478,8 @@ type C13Case struct {
 	// a key of the documents of those formats where the field has a name of
 	// its own (informational; the texts are what is decoded).
 	Decoy map[string]uint64 `json:"decoy,omitempty"`
+	// SetEdits: zero-valued members of sets and the members of integer sets.
+	SetEdits map[string]SetEdit `json:"set_edits,omitempty"`
 	// More: further documents for the same type, decoded one after the other
 	// after the first; each is judged on its own.
 	More []C13Doc `json:"more,omitempty"`
@@ -480,9 +490,10 @@ type C13Case struct {
 
 // C13Doc is a later document of a history.
 type C13Doc struct {
-	Layer shape.Layer       `json:"layer"`
-	Decoy map[string]uint64 `json:"decoy,omitempty"`
-	Texts map[string]string `json:"texts"`
+	Layer    shape.Layer        `json:"layer"`
+	Decoy    map[string]uint64  `json:"decoy,omitempty"`
+	SetEdits map[string]SetEdit `json:"set_edits,omitempty"`
+	Texts    map[string]string  `json:"texts"`
 }
 
 var noteworthy = map[string]bool{"json_dur_int": true, "cue_dur_int": true, "set_dup": true, "yaml_flow_doc": true, "yaml_strq": true,
@@ -498,8 +509,8 @@ func rapidPick(t *rapid.T, notes map[string]bool) pick {
 	}
 }
 
-func genShapeData(t *rapid.T, withTextStructSlices bool) (shape.Shape, reflect.Type, []shape.Node, shape.Data) {
-	s := shape.Gen(t, c13Profile(withTextStructSlices))
+func genShapeData(t *rapid.T, withTextStructSlices, withIntSets bool) (shape.Shape, reflect.Type, []shape.Node, shape.Data) {
+	s := shape.Gen(t, c13Profile(withTextStructSlices, withIntSets))
 	assignTags(t, s.Fields)
 	T, err := s.Build()
 	if err != nil {
@@ -529,7 +540,7 @@ func genData(t *rapid.T, nodes []shape.Node) shape.Data {
 		}
 		switch n.Class {
 		case shape.ClassLeaf:
-			if rapid.IntRange(0, 4).Draw(t, "def_zero") != 0 {
+			if n.Type != intSetT && rapid.IntRange(0, 4).Draw(t, "def_zero") != 0 {
 				d.Defaults[n.Path] = rapid.Uint64Range(1, 1<<40).Draw(t, "def_seed")
 			}
 		case shape.ClassPStruct:
@@ -549,7 +560,7 @@ func genLayer(t *rapid.T, nodes []shape.Node) shape.Layer {
 	for _, n := range nodes {
 		switch n.Class {
 		case shape.ClassLeaf:
-			if rapid.IntRange(0, 99).Draw(t, "set") < pct {
+			if n.Type != intSetT && rapid.IntRange(0, 99).Draw(t, "set") < pct {
 				l.Set[n.Path] = rapid.Uint64Range(1, 1<<40).Draw(t, "seed")
 			}
 		case shape.ClassStruct, shape.ClassPStruct:
@@ -569,7 +580,7 @@ func genLayer(t *rapid.T, nodes []shape.Node) shape.Layer {
 func genDecoy(t *rapid.T, nodes []shape.Node, l shape.Layer) map[string]uint64 {
 	dc := map[string]uint64{}
 	for _, n := range nodes {
-		if n.Class != shape.ClassLeaf || l.Set[n.Path] != 0 {
+		if n.Class != shape.ClassLeaf || l.Set[n.Path] != 0 || n.Type == intSetT {
 			continue
 		}
 		own := false
@@ -584,6 +595,68 @@ func genDecoy(t *rapid.T, nodes []shape.Node, l shape.Layer) map[string]uint64 {
 	}
 	avoidMinInt64(nodes, shape.Layer{Set: dc})
 	return dc
+}
+
+// genSetEdits gives sets members equal to the zero value of their key type
+// (only under the set-to-slice wrapper, where a set is a list): the empty
+// string added to, or alone in, a present set of strings; and the members of
+// the sets of integers (0 alone, 0 among others, none, or no zero at all).
+func genSetEdits(t *rapid.T, nodes []shape.Node, l shape.Layer, wrap string) map[string]SetEdit {
+	if wrap == "none" {
+		return nil
+	}
+	ed := map[string]SetEdit{}
+	for _, n := range nodes {
+		if n.Class != shape.ClassLeaf || !isSet(n.Type) {
+			continue
+		}
+		if n.Type == intSetT {
+			if rapid.IntRange(0, 4).Draw(t, "intset_present") < 3 {
+				ms := [][]int64{{0}, {0}, {0, 3}, {3, 0}, {-7, 0, 12}, {5}, {5, 9}, {}}[rapid.IntRange(0, 7).Draw(t, "intset_members")]
+				ed[n.Path] = SetEdit{Ints: ms, IntsPresent: true}
+				// the enclosing structs are in the document
+				for p := n.Parent; p != ""; {
+					l.Present[p] = true
+					if i := strings.LastIndexByte(p, '.'); i >= 0 {
+						p = p[:i]
+					} else {
+						p = ""
+					}
+				}
+			}
+			continue
+		}
+		if l.Set[n.Path] == 0 {
+			continue
+		}
+		switch rapid.IntRange(0, 5).Draw(t, "set_zero_member") {
+		case 0, 1:
+			ed[n.Path] = SetEdit{Zero: true}
+		case 2:
+			ed[n.Path] = SetEdit{Only: true}
+		}
+	}
+	return ed
+}
+
+// applySetEdits writes the edited sets into a value built from the seeds.
+func applySetEdits(root reflect.Value, nodes []shape.Node, l shape.Layer, edits map[string]SetEdit) error {
+	for _, n := range nodes {
+		e, ok := edits[n.Path]
+		if !ok || n.Class != shape.ClassLeaf {
+			continue
+		}
+		v, present := leafValue(n.Type, l.Set[n.Path], e)
+		if !present {
+			continue
+		}
+		f := shape.FieldByPath(root, n.Path)
+		if !f.IsValid() || !f.CanSet() {
+			return fmt.Errorf("harness: cannot reach %s to apply a set edit", n.Path)
+		}
+		f.Set(v)
+	}
+	return nil
 }
 
 // avoidMinInt64 moves a leaf on to the next seed whose value holds no
@@ -640,26 +713,29 @@ func hasMinInt64(v reflect.Value) bool {
 }
 
 func genC13Agree(t *rapid.T) C13Case {
-	s, T, nodes, d := genShapeData(t, rapid.IntRange(0, 3).Draw(t, "with_text_struct_slices") == 0)
-	c := C13Case{Shape: s, Data: d}
+	c := C13Case{}
 	c.Wrap = rapid.SampledFrom([]string{"none", "setslice", "setslice", "ez"}).Draw(t, "wrap")
+	s, T, nodes, d := genShapeData(t, rapid.IntRange(0, 3).Draw(t, "with_text_struct_slices") == 0, c.Wrap != "none")
+	c.Shape, c.Data = s, d
 	c.Reuse = rapid.Bool().Draw(t, "reuse_decoder")
 	notes := map[string]bool{}
 	pk := rapidPick(t, notes)
-	texts := func(l shape.Layer, decoy map[string]uint64) map[string]string {
+	texts := func(l shape.Layer, decoy map[string]uint64, sets map[string]SetEdit) map[string]string {
 		m := map[string]string{}
 		for _, f := range agreeFormats {
-			m[f] = render(f, buildDoc(T, l, decoy, f, c.Wrap != "none", pk), pk)
+			m[f] = render(f, buildDoc(T, l, docExtras{Decoy: decoy, Sets: sets}, f, c.Wrap != "none", pk), pk)
 		}
 		return m
 	}
 	c.Decoy = genDecoy(t, nodes, d.Layers[0])
-	c.Texts = texts(d.Layers[0], c.Decoy)
+	c.SetEdits = genSetEdits(t, nodes, d.Layers[0], c.Wrap)
+	c.Texts = texts(d.Layers[0], c.Decoy, c.SetEdits)
 	// a history: one to three documents for the same type
 	for i := rapid.SampledFrom([]int{0, 1, 1, 2}).Draw(t, "more_documents"); i > 0; i-- {
 		l := genLayer(t, nodes)
 		dc := genDecoy(t, nodes, l)
-		c.More = append(c.More, C13Doc{Layer: l, Decoy: dc, Texts: texts(l, dc)})
+		se := genSetEdits(t, nodes, l, c.Wrap)
+		c.More = append(c.More, C13Doc{Layer: l, Decoy: dc, SetEdits: se, Texts: texts(l, dc, se)})
 	}
 	c.Styles = shape.SortedKeys(notes)
 	return c
@@ -884,7 +960,7 @@ func runC13Agree(c C13Case) vrt.Verdict {
 	if bad != "" {
 		return vrt.Discardf("%s", bad)
 	}
-	docs := append([]C13Doc{{Layer: c.Data.Layers[0], Decoy: c.Decoy, Texts: c.Texts}}, c.More...)
+	docs := append([]C13Doc{{Layer: c.Data.Layers[0], Decoy: c.Decoy, SetEdits: c.SetEdits, Texts: c.Texts}}, c.More...)
 	// the four formats, plus the YAML decoder with FlattenAnonymous when the
 	// case carries texts for it (cases saved before it existed do not)
 	formats := agreeFormats
@@ -940,7 +1016,28 @@ func runC13Agree(c C13Case) vrt.Verdict {
 		}
 		where := fmt.Sprintf("document %d of %d, wrap=%s", di+1, len(docs), c.Wrap)
 		want := b.Expected(d)
+		if err := applySetEdits(want.Elem(), nodes, doc.Layer, doc.SetEdits); err != nil {
+			return vrt.Discardf("%v", err)
+		}
 		normIPs(want)
+		for _, e := range doc.SetEdits {
+			switch {
+			case e.IntsPresent:
+				labelSet["set:integer-members"] = true
+				for _, i := range e.Ints {
+					if i == 0 {
+						labelSet["set:zero-member"] = true
+						if len(e.Ints) == 1 {
+							labelSet["set:singleton-zero"] = true
+						}
+					}
+				}
+			case e.Only:
+				labelSet["set:zero-member"], labelSet["set:singleton-zero"] = true, true
+			case e.Zero:
+				labelSet["set:zero-member"] = true
+			}
+		}
 		stacked := map[string]reflect.Value{}
 		for _, f := range formats {
 			defaults := b.Defaults(d)
@@ -948,6 +1045,9 @@ func runC13Agree(c C13Case) vrt.Verdict {
 			wantLayer, err := b.Layer(pt, doc.Layer)
 			if err != nil {
 				return vrt.Violationf("pointerified type cannot hold the data: %v", err)
+			}
+			if err := applySetEdits(wantLayer, nodes, doc.Layer, doc.SetEdits); err != nil {
+				return vrt.Discardf("%v", err)
 			}
 			normIPs(wantLayer)
 			got, err := decodeWith(decoder(f), doc.Texts[f], pt)
@@ -995,6 +1095,9 @@ func runC13Agree(c C13Case) vrt.Verdict {
 		wantLayer, err := b.Layer(r.pt, docs[r.doc].Layer)
 		if err != nil {
 			return vrt.Violationf("pointerified type cannot hold the data: %v", err)
+		}
+		if err := applySetEdits(wantLayer, nodes, docs[r.doc].Layer, docs[r.doc].SetEdits); err != nil {
+			return vrt.Discardf("%v", err)
 		}
 		normIPs(wantLayer)
 		if df := shape.Diff(wantLayer, r.got); df != "" {
@@ -1052,14 +1155,14 @@ var c13Assumptions = []string{
 	"embedded struct fields are never present-but-empty (the promoting formats cannot spell that); their leaves use names no generated sibling can have",
 	"lists of dials-tagged structs ([]S; S has 1-4 tagged leaves, some with a duration, a nested struct or a format-specific tag) always have at least one element: go-toml v1 cannot decode the empty array [] into a slice of structs; inside an element a zero-valued field may be left out of the document (elements are not pointerified, absent = zero); arrays of structs, slices of pointers to structs and maps of structs are left out (the transformer does not carry tags into them)",
 	"net.IP values are compared after conversion to the 16-byte form",
-	"sets are written as lists under the set-to-slice wrapper (possibly with a repeated element) and as mappings of empty mappings without it",
+	"sets are written as lists under the set-to-slice wrapper (possibly with a repeated element) and as mappings of empty mappings without it; zero-valued members (\"\", 0) and sets of integers occur only under the wrapper, where every format spells them as list elements (an empty or integer mapping key has no common spelling)",
 	"config types are built with reflect.StructOf, so decoders are driven through static.StringSource + dials.NewType(Pointerify(T, defaults)) and stacked with the verif-tagged VerifCompose",
 }
 
 func TestC13Agree(t *testing.T) {
 	vrt.Check(t, vrt.Prop[C13Case]{
 		ID: "C13", Name: "agree",
-		Rule: "config types (depth<=3, <=5 fields per struct; nested and pointer structs; scalars, named scalars, durations, times, net.IP, Stamp, Color, slices, string-keyed maps, sets, collections of those, non-empty lists of dials-tagged structs whose tags differ from the field names (one element type has a user-declared pointer to a struct and a value struct holding another, so each element must get sub-structs of its own), named collections that unmarshal themselves from text (a slice of structs, a slice of strings, a map, and pointers to them; always spelled as text) named slices, maps and arrays of durations and pointers to them, and embedded structs by value and by pointer (2-5 tagged leaves, at the root and inside nested structs; untagged: leaves promoted into the parent in JSON, Cue and YAML with FlattenAnonymous, nested under the lower-cased type name in plain YAML and under the type name in TOML; with a dials tag and sometimes a differently named format tag on the embedding field: nested under that name everywhere except YAML with FlattenAnonymous, which still promotes)) with a dials tag on every other field and a differently named json/yaml/toml/cue tag on about a quarter of them, a third of those with options (omitempty, flow); " +
+		Rule: "config types (depth<=3, <=5 fields per struct; nested and pointer structs; scalars, named scalars, durations, times, net.IP, Stamp, Color, slices, string-keyed maps, sets of strings and (under the set-to-slice wrapper) of integers, where under the wrapper a set may hold the zero value of its key type - the empty string or 0 - among other members, alone, or not at all, collections of those, non-empty lists of dials-tagged structs whose tags differ from the field names (one element type has a user-declared pointer to a struct and a value struct holding another, so each element must get sub-structs of its own), named collections that unmarshal themselves from text (a slice of structs, a slice of strings, a map, and pointers to them; always spelled as text) named slices, maps and arrays of durations and pointers to them, and embedded structs by value and by pointer (2-5 tagged leaves, at the root and inside nested structs; untagged: leaves promoted into the parent in JSON, Cue and YAML with FlattenAnonymous, nested under the lower-cased type name in plain YAML and under the type name in TOML; with a dials tag and sometimes a differently named format tag on the embedding field: nested under that name everywhere except YAML with FlattenAnonymous, which still promotes)) with a dials tag on every other field and a differently named json/yaml/toml/cue tag on about a quarter of them, a third of those with options (omitempty, flow); " +
 			"a history of one to three documents for the same type (independent key subsets and values, so later ones omit keys earlier ones had), decoded one after the other by every decoder (JSON, YAML, TOML, Cue and YAML with FlattenAnonymous), with one Decoder value per format for the whole history or a fresh one per document; some absent leaves appear under their dials name in the formats where the field has its own name (decoy key, must stay unset); " +
 			"non-zero defaults; any subset of leaf keys present, struct keys sometimes present with nothing below; the data is rendered by hand-written emitters to JSON, YAML, TOML and Cue (random layout: block/flow, tables/inline/dotted, quoting, key order, durations as text or integer nanoseconds; duration text either as time.Duration prints it or split into microseconds and nanoseconds with the unit written \u00b5s, \u03bcs or us; in JSON keys and string tokens and in Cue string values about half of the tokens spell some or all characters as \\uXXXX escapes) and the texts are stored in the case; " +
 			"oracle, per document on its own: each decoder's value equals the pointerified value built from that document's data (absent key = nil, whatever earlier documents held), the four values stacked over the defaults agree pairwise and equal the reference stacking model; at the end no value handed out earlier has changed; " +
@@ -1086,7 +1189,12 @@ type C13CorruptCase struct {
 	Bad   map[string]string `json:"bad"`
 }
 
-var corruptKinds = []string{"bare-word", "string-for-number", "unterminated-string", "unterminated-bracket", "list-for-struct", "list-for-map", "scalar-for-list", "scalar-for-struct", structureForText, structureForText}
+var corruptKinds = []string{"bare-word", "string-for-number", "unterminated-string", "unterminated-bracket", "list-for-struct", "list-for-map", "scalar-for-list", "scalar-for-struct", structureForText, structureForText, unitDropped, unitDropped}
+
+// unitDropped writes a time.Duration leaf as a quoted number without a unit
+// ("1500ms" -> "1500"): time.ParseDuration refuses that ("missing unit") for
+// every non-zero number, and all four decoders hand the text to it.
+const unitDropped = "duration-unit-dropped"
 
 // structureForText spells a text-unmarshalable collection (PeerList, WordList,
 // KVMap or a pointer to one) by its structure (a list of objects, a list of
@@ -1139,6 +1247,9 @@ func eligible(kind string, n *dnode) bool {
 		}
 	}
 	switch kind {
+	case unitDropped:
+		_, isDur := n.val.(time.Duration)
+		return n.kind == 's' && isDur && n.typ == durT
 	case structureForText:
 		return n.kind == 's' && n.typ != nil && isTextColl(n.typ)
 	case "bare-word":
@@ -1177,6 +1288,16 @@ func zeroPick(string, int) int { return 0 }
 
 func corruptToken(kind, format string, n *dnode) string {
 	switch kind {
+	case unitDropped:
+		d := n.val.(time.Duration)
+		ms := int64(d / time.Millisecond)
+		if ms == 0 {
+			ms = 1500 // "0" alone is a valid duration
+			if d < 0 {
+				ms = -1500
+			}
+		}
+		return `"` + strconv.FormatInt(ms, 10) + `"`
 	case "bare-word":
 		return "zzqx"
 	case "string-for-number":
@@ -1223,7 +1344,7 @@ func (r *recPick) pick(label string, n int) int {
 }
 
 func genC13Corrupt(t *rapid.T) C13CorruptCase {
-	s, T, nodes, d := genShapeData(t, false)
+	s, T, nodes, d := genShapeData(t, false, false)
 	l := d.Layers[0]
 	some := len(l.Present) > 0
 	for _, sd := range l.Set {
@@ -1245,7 +1366,7 @@ func genC13Corrupt(t *rapid.T) C13CorruptCase {
 	base := rapidPick(t, nil)
 	trees := map[string]*dnode{}
 	for _, f := range formats {
-		trees[f] = buildDoc(T, l, nil, f, c.Wrap != "none", base)
+		trees[f] = buildDoc(T, l, docExtras{}, f, c.Wrap != "none", base)
 	}
 	var fns []*dnode
 	fieldNodes(trees["json"], &fns)
@@ -1399,7 +1520,7 @@ func runC13Corrupt(c C13CorruptCase) vrt.Verdict {
 func TestC13Corrupt(t *testing.T) {
 	vrt.Check(t, vrt.Prop[C13CorruptCase]{
 		ID: "C13", Name: "corrupt",
-		Rule: "a valid document per format as in C13/agree (at least one key present), then one value token chosen by type is replaced in all four documents: a bare word where a number, bool or time is expected, a quoted string where a number or bool is expected, a string without its closing quote, a list/mapping without its closing bracket, a list where a struct or a map is expected, a number where a list or a struct is expected, the structural spelling (list of objects, list of strings, mapping) of a named collection that unmarshals itself from text (JSON and Cue documents only); " +
+		Rule: "a valid document per format as in C13/agree (at least one key present), then one value token chosen by type is replaced in all four documents: a bare word where a number, bool or time is expected, a quoted string where a number or bool is expected, a string without its closing quote, a list/mapping without its closing bracket, a list where a struct or a map is expected, a number where a list or a struct is expected, the structural spelling (list of objects, list of strings, mapping) of a named collection that unmarshals itself from text (JSON and Cue documents only), a duration written as a quoted non-zero number whose unit was dropped; " +
 			"in about 12% of the cases nothing is replaced and instead (trailing-garbage) one stray token from a per-format list (closing/opening bracket, quoted or bare word, conflict marker, the start of a second object, comma, colon, equals sign, number) follows the complete valid document after optional whitespace; " +
 			"oracle: the valid document decodes without error; the corrupted one returns an error and an invalid or all-nil value from every decoder; " +
 			"non-trivial = at least three leaves are present in the document and the corrupted value is inside a nested struct (trailing-garbage: at least three leaves present); distinct = distinct case JSON",
